@@ -7,6 +7,7 @@ what SQLite's atomic commit guarantees for a killed process (trusted)."""
 import sqlite3 as _sqlite3
 
 from . import storage
+from . import kernel as _kernel
 
 OPEN = []          # live proxies of the current simulated process
 COUNTS = {"execute": 0, "commit": 0}
@@ -60,6 +61,12 @@ class ConnProxy(object):
             raise storage.SimCrash("connection of a dead process")
         COUNTS[kind] = COUNTS.get(kind, 0) + 1
         plan = storage.PLAN
+        k = _kernel.K
+        cur = getattr(k, "cur", None)
+        proc = getattr(cur, "proc", None)
+        pplan = getattr(proc, "crash_plan", None)
+        if pplan is not None:
+            plan = pplan
         if plan is not None:
             word = sql.strip().split(" ", 1)[0].upper() if sql else ""
             plan.hit("sql-%s %s" % (kind, word))
